@@ -33,7 +33,7 @@ def random_stream(r, sym, ver, level, nbits):
     if c == 0:
         return [r.below(2) for _ in range(nbits)]
     while len(out) < nbits:
-        k = r.below(12)
+        k = r.choice([0, 1, 2, 3, 4, 5, 6, 7, 7, 7, 8, 9, 10, 11])
         kinds = symgen.kinds_for(sym, ver)
         kind = r.choice(kinds)
         mode = ref.MODE[kind]
@@ -51,11 +51,20 @@ def random_stream(r, sym, ver, level, nbits):
             piece = bits_of(mode, mbits) + bits_of(n, cb) + [r.below(2) for _ in range(max(0, left))]
         elif k == 6:   # random mode indicator value
             piece = bits_of(r.below(1 << max(mbits, 1)), mbits) + [r.below(2) for _ in range(r.range(0, 30))]
-        elif k == 7:   # out-of-range group
+        elif k == 7:   # out-of-range group, with weight on the first invalid value of each group size
             if kind == 'num':
-                piece = bits_of(mode, mbits) + bits_of(3, cb) + bits_of(r.range(1000, 1023), 10)
+                c = r.below(3)
+                if c == 0:
+                    piece = bits_of(mode, mbits) + bits_of(3, cb) + bits_of(r.choice([1000, 1000, 1001, 1023, r.range(1000, 1023)]), 10)
+                elif c == 1:
+                    piece = bits_of(mode, mbits) + bits_of(5, cb) + bits_of(r.below(1000), 10) + bits_of(r.choice([100, 100, 101, 127, r.range(100, 127)]), 7)
+                else:
+                    piece = bits_of(mode, mbits) + bits_of(4, cb) + bits_of(r.below(1000), 10) + bits_of(r.choice([10, 10, 11, 15]), 4)
             elif kind == 'alnum':
-                piece = bits_of(mode, mbits) + bits_of(2, cb) + bits_of(r.range(2025, 2047), 11)
+                if r.chance(1, 2):
+                    piece = bits_of(mode, mbits) + bits_of(2, cb) + bits_of(r.choice([2025, 2025, 2026, 2047, r.range(2025, 2047)]), 11)
+                else:
+                    piece = bits_of(mode, mbits) + bits_of(3, cb) + bits_of(r.below(2025), 11) + bits_of(r.choice([45, 45, 46, 63]), 6)
             elif kind == 'kanji':
                 piece = bits_of(mode, mbits) + bits_of(1, cb) + bits_of(r.choice([63, 109, 7973, 8000, 8191, r.below(8192)]), 13)
             else:
@@ -152,6 +161,39 @@ def gen(ctx):
                 mask = 0 if sym == 'rm' else r.choice(symgen.masks(sym))
                 dec.append('%s.dec %s' % (sym, refqr.to_image_str(build(sym, ver, level, mask, bits))))
                 meta.append((sym, ver, level, mask))
+    # deterministic corpus: one stream per boundary value of every group size, as the FIRST segment, in every symbology
+    for sym in ('qr', 'mq', 'rm'):
+        ref = symgen.ref(sym)
+        for (ver, level) in {'qr': [(1, 1), (10, 0), (27, 3)], 'mq': [(2, 1), (3, 0), (4, 3)], 'rm': [(0, 0), (12, 1), (31, 0)]}[sym]:
+            nbits = ref.capacity_bits(ver, level)
+            mbits = {'qr': 4, 'rm': 3, 'mq': ver - 1}[sym]
+            for kind in symgen.kinds_for(sym, ver):
+                cb = ref.count_bits_kind(kind, ver, level)
+                mode = ref.MODE[kind]
+                heads = []
+                if kind == 'num':
+                    for v in (999, 1000, 1023):
+                        heads.append(bits_of(3, cb) + bits_of(v, 10))
+                    for v in (99, 100, 101, 127):
+                        heads.append(bits_of(5, cb) + bits_of(123, 10) + bits_of(v, 7))
+                        heads.append(bits_of(2, cb) + bits_of(v, 7))
+                    for v in (9, 10, 15):
+                        heads.append(bits_of(4, cb) + bits_of(123, 10) + bits_of(v, 4))
+                        heads.append(bits_of(1, cb) + bits_of(v, 4))
+                elif kind == 'alnum':
+                    for v in (2024, 2025, 2047):
+                        heads.append(bits_of(2, cb) + bits_of(v, 11))
+                    for v in (44, 45, 63):
+                        heads.append(bits_of(3, cb) + bits_of(100, 11) + bits_of(v, 6))
+                        heads.append(bits_of(1, cb) + bits_of(v, 6))
+                elif kind == 'kanji':
+                    for v in (0, 63, 109, 7972, 7973, 8191):
+                        heads.append(bits_of(1, cb) + bits_of(v, 13))
+                for h in heads:
+                    bits = (bits_of(mode, mbits) + h + [0] * nbits)[:nbits]
+                    mask = 0 if sym == 'rm' else r.choice(symgen.masks(sym))
+                    dec.append('%s.dec %s' % (sym, refqr.to_image_str(build(sym, ver, level, mask, bits))))
+                    meta.append((sym, ver, level, mask))
     out = ctx.go(dec)
     enc, idx = [], []
     for i, o in enumerate(out):
